@@ -31,7 +31,7 @@ def gen_details(rng, p_vars=0.35, p_rd=0.3):
         if rng.random() < 0.2:
             rd["retries_after_failure"] = rng.randint(0, 3)
         if rng.random() < 0.2:
-            rd["env"] = {k: rng.choice(["1", "a"]) for k in rng.sample(["A", "B"], rng.randint(0, 2))}
+            rd["env"] = {k: rng.choice(["1", "a"]) for k in rng.sample(["A", "B", "C"], rng.choice([0, 1, 2, 2, 3]))}
     vs = {}
     for k in VARKEYS:
         if rng.random() < p_vars:
@@ -57,6 +57,8 @@ def gen_config(rng):
         suites["S%d" % i] = dict(details=gen_details(rng), benchmarks=benches)
     experiments = {}
     shared = gen_details(rng)
+    if rng.random() < 0.3:
+        shared["rd"]["env"] = {k: rng.choice(["1", "a"]) for k in rng.sample(["A", "B", "C"], rng.randint(2, 3))}
     for i in range(1, nexp + 1):
         executions = []
         for e in rng.sample(sorted(executors), rng.randint(1, nexec)):
@@ -74,6 +76,9 @@ def gen_config(rng):
         exp_suites = rng.sample(sorted(suites), rng.randint(1, nsuite))
         # experiments frequently share their details, so that runs are shared between experiments
         det = shared if rng.random() < 0.5 else gen_details(rng)
+        if det is shared and len(shared["rd"].get("env", {})) > 1 and rng.random() < 0.5:
+            # the same settings written in another order: an env map is unordered, the runs are still shared
+            det = dict(rd=dict(shared["rd"], env=dict(reversed(list(shared["rd"]["env"].items())))), vars=shared["vars"])
         experiments["X%d" % i] = dict(details=det, executions=executions, suites=exp_suites, profile=False)
     machines = {"m1": gen_details(rng), "m2": gen_details(rng)}
     runs = gen_details(rng, p_vars=0)["rd"]
